@@ -14,13 +14,17 @@ from .core import InternalError
 class Chooser:
     """Records the choice points of one execution and replays a prefix."""
 
-    def __init__(self, prefix: list[int] | tuple = ()) -> None:
+    def __init__(self, prefix: list[int] | tuple = (), visited: dict | None = None, bound: int = 0) -> None:
         self.prefix = list(prefix)
+        self.visited = visited
+        self.bound = bound
+        self.pruned_from: int | None = None
         self.points: list[tuple[int, bool, str]] = []  # (n alternatives, default is free?, kind)
         self.choices: list[int] = []
         self.labels: list[Any] = []
 
-    def choose(self, n: int, costly: bool = True, kind: str = "thread", label: Any = None) -> int:
+    def choose(self, n: int, costly: bool = True, kind: str = "thread", label: Any = None,
+               state_key: Any = None) -> int:
         """n >= 1 alternatives; index 0 is the default. costly=True: taking an alternative is a
         deviation (pre-emption of a runnable thread, non-benign environment answer)."""
         if n <= 1:
@@ -33,6 +37,15 @@ class Chooser:
                     f"replay divergence at point {i}: recorded choice {c} but only {n} alternatives ({kind})")
         else:
             c = 0
+            if state_key is not None and self.visited is not None and self.pruned_from is None:
+                # state caching: a state already expanded with at least as much deviation budget
+                # left has the same futures -> no branching from here on in this execution
+                rem = self.bound - self.deviations()
+                k = hash(state_key)
+                if self.visited.get(k, -1) >= rem:
+                    self.pruned_from = i
+                else:
+                    self.visited[k] = rem
         self.points.append((n, costly, kind))
         self.choices.append(c)
         self.labels.append(label)
@@ -44,19 +57,21 @@ class Chooser:
 
 
 def explore(run_fn: Callable[[Chooser], Any], bound: int, on_exec: Callable[[Chooser, Any], None],
-            max_execs: int | None = None) -> dict:
+            max_execs: int | None = None, cache_states: bool = False) -> dict:
     """Depth-first enumeration of all executions with at most `bound` deviations.
     Returns {'executions', 'capped', 'max_points'}."""
     stack: list[list[int]] = [[]]
     n_exec = 0
     max_points = 0
     capped = False
+    visited: dict | None = {} if cache_states else None
+    pruned = 0
     while stack:
         if max_execs is not None and n_exec >= max_execs:
             capped = True
             break
         prefix = stack.pop()
-        ch = Chooser(prefix)
+        ch = Chooser(prefix, visited, bound)
         result = run_fn(ch)
         if len(ch.choices) < len(prefix):
             raise InternalError(f"replay divergence: execution ended after {len(ch.choices)} points, prefix has {len(prefix)}")
@@ -64,7 +79,11 @@ def explore(run_fn: Callable[[Chooser], Any], bound: int, on_exec: Callable[[Cho
         max_points = max(max_points, len(ch.points))
         on_exec(ch, result)
         dev = ch.deviations(len(prefix))
-        for i in range(len(prefix), len(ch.points)):
+        end = len(ch.points)
+        if ch.pruned_from is not None:
+            end = ch.pruned_from
+            pruned += 1
+        for i in range(len(prefix), end):
             n, costly, _ = ch.points[i]
             c = dev + (1 if costly else 0)
             if c <= bound:
@@ -72,4 +91,5 @@ def explore(run_fn: Callable[[Chooser], Any], bound: int, on_exec: Callable[[Cho
                     stack.append(ch.choices[:i] + [alt])
             if ch.choices[i] != 0 and costly:
                 dev += 1
-    return {"executions": n_exec, "capped": capped, "max_points": max_points}
+    return {"executions": n_exec, "capped": capped, "max_points": max_points, "pruned": pruned,
+            "cached_states": len(visited) if visited is not None else 0}
